@@ -116,6 +116,9 @@ def io_options(draw, obs, modes, open_ids, pobs=False):
         if draw(st.integers(0, 5)) == 0:
             sub = draw(st.lists(st.sampled_from(enss), min_size=1, max_size=len(enss), unique=True))
             opt['enstags'] = {e: draw(st.sampled_from(['T_' + e, e + 'x', e[:1]])) for e in sorted(sub)}
+            if draw(st.booleans()):
+                # a tag dictionary that also knows ensembles which are not in this list (one dictionary for several exports)
+                opt['enstags']['ZZ_not_in_list'] = 'T_ZZ'
     opt['excl'] = list(open_ids)
     opt['excluded'] = excluded
     return opt
